@@ -5,11 +5,16 @@
 2. replay: one behaviour per distinct (operation, resulting model state) pair is executed on the real Pool (plain and with a
    CBOR round-trip after every call, as the roothash application stores it); differences from PoolOp are MODEL-DRIFT;
 3. verdict: the real outcomes of every drifting behaviour, of every k-th other behaviour and of seeded random rounds with
-   larger committees (<=5 primary, <=4 backup, 3 results) are validated by TLC against TracePoolRule (rule only).
+   larger committees (<=5 primary, <=4 backup, 3 results) are validated by TLC against TracePoolRule (rule only);
+4. application level: seeded scenarios on real multiplexers register runtimes, let committees be elected and submit executor
+   commitments as consensus transactions (members and non-members, schedulers of every rank, agreeing / dissenting / failure
+   votes, stale rounds, silence until the round timer fires); the round state of every runtime is recorded after BeginBlock and
+   after EndBlock and TLC judges every runtime block the roothash application emits with the same PoolRule (TraceRoothash.tla).
 """
 import json
 
 import vlib
+from props import cons_common as cc
 
 
 def run(ctx):
@@ -75,8 +80,89 @@ def run(ctx):
     if not rej3:
         raise vlib.Infra("self-test failed: forged finalization accepted by TracePoolRule")
     finals = sum(1 for ln in rlines if '"ret":"final"' in ln)
+
+    # 4. the roothash application: commitments as transactions, blocks judged by the same rule
+    seeds = [ctx.seed * 1000 + 700 + i for i in range(6 if q else 48)]
+    alines, asums = cc.run_scenarios(ctx, seeds, 160 if q else 400, extra=["-validators", "5", "-maxgroup", "3"])
+    stats = {"normal": 0, "failed": 0, "epoch": 0, "suspended": 0, "disc_events": 0, "commits_accepted": 0, "commits_rejected": 0,
+             "timers_seen": 0, "two_role_rounds": 0}
+    last = {}
+    for ln in alines:
+        if '"ev":"begin_chain"' in ln:
+            last = {}
+        elif '"ev":"rh"' in ln or '"ev":"rhb"' in ln:
+            e = json.loads(ln)
+            stats["disc_events"] += len(e.get("disc_events") or [])
+            for r in e["rts"]:
+                p = last.get(r["rt"])
+                if p is not None and r["round"] != p["round"]:
+                    stats[r["htype"]] = stats.get(r["htype"], 0) + 1
+                    if r["htype"] == "normal" and p["b"]:
+                        stats["two_role_rounds"] += 1
+                if r["next_timeout"] != -1:
+                    stats["timers_seen"] += 1
+                last[r["rt"]] = r
+        elif '"kind":"rhcommit"' in ln:
+            e = json.loads(ln)
+            stats["commits_accepted" if e["code"] == 0 else "commits_rejected"] += 1
+    ctx.log("roothash application: %d blocks of %d scenarios; runtime blocks %s" % (cc.totals(asums)["blocks"], len(seeds), stats))
+    if stats["normal"] < 20 or stats["failed"] < 1 or stats["disc_events"] < 1 or stats["commits_rejected"] < 5:
+        raise vlib.Infra("vacuous application-level run: %s" % stats)
+    arej, anv, anev = vlib.validate_traces(ctx, ("consensus", "roothash"), "TraceRoothash", "traceroothash.cfg", alines,
+                                           begin_marker='"ev":"begin_chain"', timeout=3000)
+    ctx.log("application traces: %d valid, %d rejected, %d events" % (anv, len(arej), anev))
+    for seg in arej:
+        vlib.report(ctx, "runtime block emitted by the roothash application is not permitted by the rule (%s): %s" % (
+            seg["why"], seg["failing_event"][:700]), {"trace_tail": seg["events"][-40:]}, {"class": "app:" + seg["why"]})
+    # self-tests on the first scenario: (a) a finalized block with another state root, (b) an accepted commitment of the
+    # finalizing round withheld from TLC, (c) an expired timer left armed - each must be rejected
+    seg0 = []
+    for ln in alines:
+        if '"ev":"begin_chain"' in ln and seg0:
+            break
+        seg0.append(ln)
+    target, lastv = None, {}      # a (runtime, round) of the first scenario that ended with a normal block
+    for ln in seg0:
+        e = json.loads(ln)
+        if e.get("ev") in ("rh", "rhb"):
+            for r in e["rts"]:
+                p = lastv.get(r["rt"])
+                if target is None and p and r["round"] == p["round"] + 1 and r["htype"] == "normal":
+                    target = (r["rt"], r["round"])
+                lastv[r["rt"]] = r
+    for how in ("root", "withheld", "timer"):
+        forged, done, lastv = [], False, {}
+        for ln in seg0:
+            e = json.loads(ln)
+            if not done and e.get("ev") == "rh":
+                for r in e["rts"]:
+                    p = lastv.get(r["rt"])
+                    if how == "root" and p and r["round"] == p["round"] + 1 and r["htype"] == "normal":
+                        r["sroot"] = "0123456789abcdef"
+                        done = True
+                    if how == "timer" and r["next_timeout"] == -1 and r["has_committee"]:
+                        r["next_timeout"] = e["h"]
+                        done = True
+                    if done:
+                        break
+            if e.get("ev") in ("rh", "rhb"):
+                for r in e["rts"]:
+                    lastv[r["rt"]] = r
+            if how == "withheld" and target and e.get("ev") == "tx" and e.get("spec", {}).get("kind") == "rhcommit" and e["code"] == 0 \
+                    and e["spec"]["node"] == e["spec"]["sched"] and (e["spec"]["to"], e["spec"]["amount"]) == target:
+                e["code"] = 7      # the schedulers' own commitments of that round are hidden: nothing they proposed may be finalized
+                done = True
+            forged.append(json.dumps(e) + "\n")
+        if not done:
+            raise vlib.Infra("self-test (%s): nothing to forge in the first scenario" % how)
+        rj, _, _ = vlib.validate_traces(ctx, ("consensus", "roothash"), "TraceRoothash", "traceroothash.cfg", forged,
+                                        begin_marker='"ev":"begin_chain"', max_rounds=1)
+        if not rj:
+            raise vlib.Infra("self-test failed: forged application trace (%s) accepted" % how)
+    ctx.coverage.update(app_scenarios=len(seeds), app_runtime_blocks=stats, app_traces_valid=anv, app_trace_events=anev,
+                        selftest_forged_app_traces_rejected=True)
     ctx.coverage.update(
         replayed_behaviours=summ["behaviours"], replay_ops=summ["ops"], drift=summ["op_mismatches"], panics=summ["panics"],
-        ret_counts=summ["ret_counts"], traces_validated_against_impl=nv + nv2, trace_events=nev + nev2,
+        ret_counts=summ["ret_counts"], traces_validated_against_impl=nv + nv2 + anv, trace_events=nev + nev2 + anev,
         random_rounds=ntr, random_finalizations=finals, selftest_forged_final_rejected=True,
         samples=summ["samples"][:2])
